@@ -27,6 +27,14 @@ EXPLANATION = (
 ROLES = ("host", "port", "comm_addr", "timeout", "retries")
 
 
+def _is_future(fn, e):
+    from .proto import is_future_expr
+    try:
+        return is_future_expr(fn, e)
+    except Exception:
+        return False
+
+
 def _role_names(e: ast.expr) -> Set[str]:
     return {n.id for n in ast.walk(e) if isinstance(n, ast.Name) and n.id in ROLES}
 
@@ -241,7 +249,7 @@ def r2(ctx: Ctx, rep: Report):
             origin = p.end_node
             first_raise = next((ev for ev in p.events if ev.kind == "raise"), None)
             src = first_raise.node if first_raise is not None else origin
-            if isinstance(src, ast.Await) and not isinstance(src.value, ast.Call) and "future" in norm(src.value):
+            if isinstance(src, ast.Await) and not isinstance(src.value, ast.Call) and ("future" in norm(src.value) or _is_future(sr, src.value)):
                 continue      # the exception was put on the future by a callback, which resets the counter (checked above)
             reset = any((ev.kind == "stmt" and "store:_retry=0" in tags(ev)) or (ev.kind == "call" and "max_retries" in tags(ev) and mx_resets) for ev in p.events)
             k = "%s@%s" % (norm(src)[:50], prog.exc_name(p.end_data))
